@@ -778,18 +778,23 @@ func (repo *Repository) MarkHeaderInvalid(ctx context.Context, hash bitcoin.Hash
 	repo.Lock()
 	defer repo.Unlock()
 
+	alreadyMarked := false
 	for _, invalidHash := range repo.invalidHashes {
 		if invalidHash.Equal(&hash) {
-			return nil // already marked
+			alreadyMarked = true
+			break
 		}
 	}
 
-	repo.invalidHashes = append(repo.invalidHashes, hash)
-	if err := saveInvalidHashes(ctx, repo.store, repo.invalidHashes); err != nil {
-		return errors.Wrap(err, "save invalid hashes")
+	if !alreadyMarked {
+		repo.invalidHashes = append(repo.invalidHashes, hash)
+		if err := saveInvalidHashes(ctx, repo.store, repo.invalidHashes); err != nil {
+			return errors.Wrap(err, "save invalid hashes")
+		}
 	}
 
-	// Check if hash was previously accepted
+	// Check if hash was previously accepted. This also applies when the hash is already marked, for
+	// example when it was added to the config after the header had been accepted and saved.
 	branch, height := repo.branches.Find(hash)
 	if branch == nil {
 		return nil // not found
